@@ -149,6 +149,21 @@ async def play(lab: L.Lab, case: dict, port: int, bind_port: int | None, ports: 
         elif op == 'ka':
             if cur:
                 await cur.send(rw.keepalive())
+        elif op == 'keepalives':
+            # the remote keeps the session alive from now on: a KEEPALIVE every args[0] virtual seconds until it is closed
+            if cur:
+
+                async def _kas(sess=cur, every=float(args[0])):
+                    try:
+                        while not sess.closed:
+                            await asyncio.sleep(every)
+                            if sess.closed:
+                                break
+                            await sess.send(rw.keepalive())
+                    except Exception:  # noqa
+                        pass
+
+                asyncio.ensure_future(_kas())
         elif op == 'establish':
             if cur:
                 ok = await L.establish(cur, remote_open(c, args[0] if args else None), 10.0)
